@@ -279,6 +279,14 @@ bool apply_terminal_op_to(std::string const &op, reader &r, Sink const &out)
         for (long i = 0; i < n; ++i) s += read_element(r);
         out(s);
     }
+    else if (op == "wl") {
+        // plain text streamed as a C string, the way a literal is: term << "text"
+        long n = r.num();
+        std::string text;
+        for (long i = 0; i < n; ++i) text.push_back(static_cast<char>(r.num()));
+        char const *p = text.c_str();
+        out.each([&](terminal &t) { t << p; });
+    }
     else if (op == "re") out(write_element(read_element(r)));
     else if (op == "da") out(write_optional_default_attribute());
     else if (op == "mv") { long x = r.num(), y = r.num(); out(move_cursor({(coordinate_type)x, (coordinate_type)y})); }
